@@ -24,6 +24,9 @@ type genState struct {
 	words   []string
 	old     map[string][]Val // values stored earlier at a path
 	recent  []uuid.UUID      // ids written by the last accepted batch
+	chain   int              // >0: graph 'chain' history: points on a ray inserted one per batch, then the middle deleted
+	chainIds []uuid.UUID
+	large   bool // graph profile: 60..110 points, few batches
 	dim     int
 	vecMetric string
 }
@@ -39,6 +42,10 @@ func newGen(profile string, seed uint64, idx int) *genState {
 	r := rand.New(pcg)
 	g := &genState{r: r, pcg: pcg, profile: profile, sent: map[uuid.UUID]Val{}, maxSize: 1 << 20}
 	npool := 10 + r.IntN(6)
+	large := profile == "c03" && idx%6 == 5
+	if large {
+		npool = 60 + r.IntN(50) // a collection larger than every search window
+	}
 	for i := 0; i < npool; i++ {
 		var u uuid.UUID
 		for j := range u {
@@ -47,7 +54,13 @@ func newGen(profile string, seed uint64, idx int) *genState {
 		g.pool = append(g.pool, u)
 	}
 	g.words = vocab
+	g.large = large
 	g.schema = g.pickSchema(idx)
+	for _, ix := range g.schema {
+		if !large && ix.kind == ixVamana && ix.metric == "euclidean" && ((profile == "c08" && idx%2 == 1) || (profile == "c03" && idx%4 == 3)) {
+			g.chain = 4 + r.IntN(3)
+		}
+	}
 	return g
 }
 
@@ -423,6 +436,19 @@ func sortDoc(v *Val) {
 func (g *genState) genDoc(forUpdate bool, wrongOK bool) Val {
 	r := g.r
 	d := Val{K: kMap}
+	if g.large {
+		// small documents: the vector (always on insert) and an integer
+		for _, ix := range g.schema {
+			if ix.kind == ixVamana && (!forUpdate || r.IntN(2) == 0) {
+				setPath(&d, ix.path, vVec(g.genVec(ix.dim)))
+			}
+			if ix.kind == ixInt && r.IntN(2) == 0 {
+				setPath(&d, ix.path, vInt(int64(r.IntN(7))))
+			}
+		}
+		sortDoc(&d)
+		return d
+	}
 	// top-level keys touched by nested paths are written as whole sub-maps (shallow merge!)
 	for _, ix := range g.schema {
 		p := 70
@@ -504,8 +530,38 @@ func (g *genState) deadIds() []uuid.UUID {
 	return ids
 }
 
+// chainBatch: points on a ray, one per batch (alpha pruning then yields the chain start -> p1 <-> p2 <-> ...),
+// then two neighbouring middle points are deleted in one batch: the far end loses its only inbound edge and
+// must be re-attached to the entry node (and that repair must reach the disk).
+func (g *genState) chainBatch(step int) (batchSpec, bool) {
+	var vix idxSpec
+	for _, ix := range g.schema {
+		if ix.kind == ixVamana {
+			vix = ix
+		}
+	}
+	top := strings.SplitN(vix.path, ".", 2)[0]
+	if step < g.chain {
+		v := make([]float32, vix.dim)
+		v[0] = float32(100 * (step + 1))
+		id := g.pool[step]
+		g.chainIds = append(g.chainIds, id)
+		return batchSpec{kind: 0, points: []pointSpec{{id: id, doc: Val{K: kMap, M: []KV{{"i", vInt(int64(step))}, {top, vVec(v)}}}}}}, true
+	}
+	if step == g.chain {
+		k := 1 + g.r.IntN(g.chain-3+1)
+		return batchSpec{kind: 2, ids: []uuid.UUID{g.chainIds[k], g.chainIds[k+1]}}, true
+	}
+	return batchSpec{}, false
+}
+
 func (g *genState) genBatch(step int) batchSpec {
 	r := g.r
+	if g.chain > 0 {
+		if b, ok := g.chainBatch(step); ok {
+			return b
+		}
+	}
 	live, dead := g.liveIds(), g.deadIds()
 	k := r.IntN(100)
 	if step == 0 || len(live) == 0 {
@@ -516,6 +572,9 @@ func (g *genState) genBatch(step int) batchSpec {
 		n := r.IntN(7)
 		if step == 0 {
 			n = 3 + r.IntN(5)
+		}
+		if g.large && step < 2 {
+			n = len(dead) / (2 - step) // the pool goes in with the first two batches
 		}
 		b := batchSpec{kind: 0}
 		perm := r.Perm(len(dead))
@@ -558,6 +617,27 @@ func (g *genState) genBatch(step int) batchSpec {
 		}
 		if r.IntN(20) == 0 {
 			b.points = nil
+		}
+		// graph profiles: one request that removes and re-adds (or sets and then removes) the vector field of
+		// the same point. The second shape is the known finding F14 (DESIGN 9.3): the step is tagged.
+		if g.profile == "c03" && r.IntN(5) == 0 && len(live) > 0 {
+			ix := g.schema[0]
+			id := live[r.IntN(len(live))]
+			top := strings.SplitN(ix.path, ".", 2)[0]
+			del := pointSpec{id: id, doc: Val{K: kMap, M: []KV{{top, vStr("_delete")}}}}
+			set := pointSpec{id: id, doc: Val{K: kMap, M: []KV{{top, vVec(g.genVec(ix.dim))}}}}
+			var keep []pointSpec
+			for _, p := range b.points {
+				if p.id != id {
+					keep = append(keep, p)
+				}
+			}
+			if r.IntN(3) > 0 {
+				b.points = append(keep, del, set)
+			} else {
+				b.points = append(keep, set, del)
+				b.note = 777
+			}
 		}
 		return b
 	default: // delete
